@@ -498,3 +498,102 @@ func restStepErrors(c *Ctx, id string) {
 		c.Undecided(id, "rest-floor", 0, "only %d fallible steps found in the REST client (5 on the reference tree)", n)
 	}
 }
+
+// failsWhereItFailed: every fallible call of fn has a consequence exactly where its error is known to be non-nil — a
+// panic or a return that carries an error — and no success return there. (The polarity matters: `if err == nil
+// { return 0, err' }` compiles, passes tests that only feed valid input, and turns every valid input into a failure.)
+func failsWhereItFailed(c *Ctx, id, key string, fn *ssa.Function) int {
+	w := c.W
+	c.see(fn)
+	n := 0
+	allInstrs(fn, func(in ssa.Instruction) {
+		call, ok := in.(*ssa.Call)
+		if !ok || !hasErrorResult(call.Common()) {
+			return
+		}
+		cn := calleeName(call.Common())
+		if strings.HasPrefix(cn, "errors.") || strings.HasPrefix(cn, "fmt.") {
+			return
+		}
+		if t := marshalArgType(call.Common()); t != nil && marshalTotal(t, 0) {
+			return
+		}
+		ers := errResults(call)
+		if len(ers) == 0 {
+			return // (result discarded: judged by the rules on dropped errors)
+		}
+		n++
+		e := ers[0]
+		consequence, swallowed := false, false
+		allInstrs(fn, func(in2 ssa.Instruction) {
+			if deadBlock(in2.Block()) || !errGuard(in2.Block(), false, func(v ssa.Value) bool { return v == e }) {
+				return
+			}
+			switch x := in2.(type) {
+			case *ssa.Panic:
+				consequence = true
+			case *ssa.Return:
+				res := fn.Signature.Results()
+				if res.Len() > 0 && types.Identical(res.At(res.Len()-1).Type(), types.Universe.Lookup("error").Type()) {
+					if isNilConst(x.Results[len(x.Results)-1]) {
+						swallowed = true
+					} else {
+						consequence = true
+					}
+				}
+			}
+		})
+		construct := fmt.Sprintf("%s:%s@%s#%d", key, cn, fn.Name(), nthCallIn(fn, call))
+		c.Check(consequence && !swallowed, id, construct, in.Pos(), "fails (panic / error return) exactly where "+cn+" failed", fmt.Sprintf("%s's failure has no consequence where it is known to have failed (panic or error return there: %v, success return there: %v) @%s", cn, consequence, swallowed, w.pos(in.Pos())))
+	})
+	return n
+}
+
+// parseFailures (C17): a size string whose number does not parse is an error, and one that is neither an integer nor
+// number+unit is fatal.
+func parseFailures(c *Ctx, id string) {
+	w := c.W
+	n := 0
+	if f := w.Func("helpers", "convertSizeUnitToByte"); f != nil {
+		n += failsWhereItFailed(c, id, "parse", f)
+	}
+	if f := w.Func("helpers", "ResolveUnionIntOrStringValue"); f != nil {
+		// (ParseInt's failure is the cue to try the unit parser, not an error: only the unit parser's failure is fatal)
+		c.see(f)
+		allInstrs(f, func(in ssa.Instruction) {
+			call, ok := in.(*ssa.Call)
+			if !ok || call.Common().StaticCallee() == nil || call.Common().StaticCallee().Name() != "convertSizeUnitToByte" {
+				return
+			}
+			n++
+			fatal := false
+			if ers := errResults(call); len(ers) > 0 {
+				e := ers[0]
+				allInstrs(f, func(in2 ssa.Instruction) {
+					if _, isP := in2.(*ssa.Panic); isP && errGuard(in2.Block(), false, func(v ssa.Value) bool { return v == e }) {
+						fatal = true
+					}
+				})
+			}
+			c.Check(fatal, id, "parse:unit-string-fatal", in.Pos(), "a size string that is neither an integer nor number+unit is fatal", "a size string that cannot be parsed does not stop the client where the unit parser failed")
+		})
+	}
+	if n < 2 {
+		c.Undecided(id, "parse-floor", 0, "only %d parse steps found (2 on the reference tree)", n)
+	}
+}
+
+// identityParse (C10): an identity that cannot be (un)marshalled is fatal on the failing branch — a member never goes on
+// with a half-read peer identity.
+func identityParse(c *Ctx, id string) {
+	w := c.W
+	n := 0
+	for _, fn := range w.ModFuncs {
+		if fn.Parent() == nil && strings.HasSuffix(pkgOfFn(fn), "/models") && (fn.Name() == "NewIdentityFromStr" || (fn.Name() == "String" && fn.Signature.Recv() != nil && recvTypeName(fn.Signature.Recv().Type()) == "Identity")) {
+			n += failsWhereItFailed(c, id, "identity", fn)
+		}
+	}
+	if n < 1 {
+		c.Undecided(id, "identity-floor", 0, "no identity parse step found")
+	}
+}
